@@ -111,6 +111,15 @@ NOTES = {
     "C12-s11": "first missed (the change adds a per-task `cores` request to the local backend and releases more than it took; the pool explorer drives `enqueue_task` with today's signature): C12 got a CLI-level family — four targets asking for more cores than the pool has, run through the real Client on the bridged pool, every exit order, three rounds, with a bound on the processes alive at once",
     "C19-s11": "first missed: inputs found with Workflow.glob / iglob handed to template targets with a working directory of their own",
     "C19-s12": "C19 first missed it (C03 caught it): `~`, `$`, `%`, `*` in declared paths are plain characters (C19 path values; C03 `tilde` family)",
+    "C01-s6": "C01 first missed it (C18 caught it): the two-target CLI family now also edits T's script while its job is queued and runs gwf once more before the jobs finish",
+    "C13-s14": "first missed: task output that is not valid UTF-8",
+    "C14-s13": "first a harness error (the socket tier did not expect its own connection to be refused); now reported",
+    "C14-s14": "first missed: an enqueue and the cancel of the id it is going to get in one write",
+    "C10-s14": "a value-coercion defect of `gwf config set` (C20 reports it: the file holds 'false' as text)",
+    "C03-s14": "first missed: the same raw relative spelling for two different files from two working directories (third pool file renamed)",
+    "C16-s13": "first a harness error (`os.utime(fd)` journals a descriptor, not a path), then missed: directory outputs in C16 (`dir` family); the journal resolves descriptors",
+    "C16-s14": "C16 first missed it (C05 caught it): a selection pattern that uses only a character class",
+    "C19-s14": "C19 first missed it (C20 caught it): another project's configuration file in the unrelated invoking directory",
     "C07-s8": "first missed: the scheduler moves while gwf is submitting (one environment step before the k-th scheduler command of a run)",
 }
 
